@@ -1,10 +1,15 @@
 #!/bin/sh
-# Builds the framework offline: full .vo build of the Coq development, then the Rust harness.
+# Builds the framework offline: full .vo build (no -vos) of the Coq files every registered check
+# needs, then the Rust harness.
 set -e
 cd "$(dirname "$0")"
 export CARGO_NET_OFFLINE=true
+TARGETS=$(python3 -c "
+import json
+m = json.load(open('MANIFEST.json'))
+print(' '.join('theories/Props/%s.vo theories/Judge/%s.vo' % (c['property_id'], c['property_id']) for c in m['checks']))")
 cd coq
 coq_makefile -f _CoqProject $(find theories -name '*.v' | sort) -o Makefile > /dev/null
-timeout 3000 make -j16
+timeout 3000 make -j16 $TARGETS
 cd ../harness
 timeout 3000 cargo build --release --offline
